@@ -265,8 +265,8 @@ func (k *Conn) read(method string) *Resp {
 			k.Close()
 			return &Resp{Err: err}
 		}
-		if resp.StatusCode == 100 {
-			continue
+		if resp.StatusCode >= 100 && resp.StatusCode < 200 && resp.StatusCode != 101 {
+			continue // interim responses (100 Continue, 103 Early Hints, ...)
 		}
 		body, err := io.ReadAll(resp.Body)
 		resp.Body.Close()
